@@ -41,6 +41,7 @@ type witness struct {
 
 func main() {
 	r := ev.Start("C02", "exploration")
+	r.Supervise() // a real engine runs in-process: its death is an outcome, observed by a supervising parent
 	r.Rule("seeded transactions (0-3 predicates incl. ranges/existence-only/targets derived from stored values; 0-4 ops per branch mixing range, put, (range) delete on a small key pool) " +
 		"embedded after 0-5 other commands in one apply batch of the real FSM; read-only ones additionally through Lookup; concurrent-reader visibility runs; engine runs. " +
 		"Non-trivial: txn with a range predicate or >=2 predicates whose executed branch has >=2 ops touching a common key and which is preceded by >=1 command in the same apply batch; distinct by rendered txn+prefix")
